@@ -209,21 +209,23 @@ type Entry struct {
 
 // Config of one run.
 type Config struct {
-	Seed        uint64
-	Strategy    string  // random | rtb | pct | starve | default
-	PTick       float64 // probability that a due timer fires while goroutines are runnable
-	PPreempt    float64
-	PCTDepth    int
-	StarvePct   int // percentage of goroutine classes starved (starve strategy)
-	StarveMax   int // max number of times a starved goroutine is skipped
-	Choices     []int32
-	Replay      bool
-	MaxSteps    int64 // adversarial steps before fair mode is forced
-	FairBudget  int64 // steps allowed in fair mode before main must have returned
-	PostBudget  int64 // steps allowed after main returned
-	Trace       func(string)
-	NoAutoFair  bool
-	InitialTime int64
+	Seed         uint64
+	Strategy     string  // random | rtb | pct | starve | default
+	PTick        float64 // probability that a due timer fires while goroutines are runnable
+	PPreempt     float64
+	PCTDepth     int
+	StarvePct    int // percentage of goroutine classes starved (starve strategy)
+	StarveMax    int // max number of times a starved goroutine is skipped
+	Choices      []int32
+	Replay       bool
+	MaxSteps     int64 // adversarial steps before fair mode is forced
+	FairBudget   int64 // steps allowed in fair mode before main must have returned
+	PostBudget   int64 // steps allowed after main returned
+	Trace        func(string)
+	NoAutoFair   bool
+	MaxWorkFires int  // >0: at most this many timers fire while goroutines are runnable (bounds exhaustive exploration)
+	RecordArity  bool // replay mode: record the number of alternatives at every choice point (exhaustive exploration of litmus programs)
+	InitialTime  int64
 }
 
 // Result of one run.
@@ -250,7 +252,8 @@ type Result struct {
 	ClassCount     map[string]int
 	Starved        map[string]int
 	Marks          map[string]int64
-	RaceErrors     int // detector's error count when the run ended (before unwinding)
+	Arity          []int32 // with Config.RecordArity: alternatives at each choice point, in order
+	RaceErrors     int     // detector's error count when the run ended (before unwinding)
 }
 
 type sched struct {
@@ -718,12 +721,18 @@ func (s *sched) choose() (g *G, fire bool) {
 		}
 	}
 	timerOK := len(s.timers) > 0
+	if s.cfg.MaxWorkFires > 0 && s.res.TickDuringWork >= int64(s.cfg.MaxWorkFires) {
+		timerOK = false // bounded exhaustive exploration: time passes during work only so often
+	}
 	n := len(cands)
 	if timerOK {
 		n++
 	}
 	var k int
 	if s.cfg.Replay {
+		if n > 1 && s.cfg.RecordArity {
+			s.res.Arity = append(s.res.Arity, int32(n))
+		}
 		if n == 1 {
 			k = 0
 		} else if s.cpos < len(s.choices) {
@@ -758,6 +767,9 @@ func (s *sched) choice(n int) int {
 		return 0
 	}
 	if s.cfg.Replay {
+		if s.cfg.RecordArity {
+			s.res.Arity = append(s.res.Arity, int32(n))
+		}
 		if s.cpos < len(s.choices) {
 			k := int(s.choices[s.cpos]) % n
 			s.cpos++
